@@ -334,6 +334,8 @@ def check_csrf_origin(
         trusted_origins = aslist(
             request.registry.settings.get("pyramid.csrf_trusted_origins", [])
         )
+    else:
+        trusted_origins = list(trusted_origins)
 
     if request.host_port not in {"80", "443"}:
         trusted_origins.append("{0.domain}:{0.host_port}".format(request))
